@@ -24,6 +24,7 @@ OBLIGATIONS = [
     "Grog.C14.success_post",
     "Grog.C14.stored_only_on_success",
     "Grog.C14.failing_check_forces_exec",
+    "Grog.C14.failing_check_executes",
     "Grog.C14.still_failing_fails",
     "Grog.C14.old_gate_witness",
 ]
